@@ -1086,7 +1086,7 @@ func canProveRule(P *Program, R *Report, rule string) {
 			m++
 		}
 	})
-	R.decide(rule, "keyproof.CanProve:residues", "CanProve compares residues modulo 8 of P, Q and their halves (>= 4 comparisons)", m >= 4, fmt.Sprintf("%d comparisons", m), P.Pos(fn.Pos()))
+	R.decide(rule, "keyproof.CanProve:residues", "CanProve compares residues modulo 8 of P, Q and their halves (the six conditions are decided one by one below)", m >= 1, fmt.Sprintf("%d comparisons", m), P.Pos(fn.Pos()))
 	// the six residue conditions, each between the right pair: true => X mod 8 != 1 for X in {P, Q, P', Q'},
 	// P mod 8 != Q mod 8 and P' mod 8 != Q' mod 8
 	be := P.bigEval(fn)
@@ -1102,8 +1102,23 @@ func canProveRule(P *Program, R *Report, rule string) {
 		{"P!=Q", res(full("arg#0")), res(full("arg#1"))}, {"P'!=Q'", res(pp), res(qp)},
 	}
 	var seenT []string
+	tableRows, tableOK := pairTableLoop(P, fn, be)
 	for _, cd := range conds {
 		cd := cd
+		// the same tests written as a loop over a table of pairs that must differ: every row is tested (full walk, the
+		// loop rejects an equal pair) and the table has this pair
+		if tableOK {
+			found := false
+			for _, row := range tableRows {
+				if (row[0].equal(cd.x) && row[1].equal(cd.y)) || (row[0].equal(cd.y) && row[1].equal(cd.x)) {
+					found = true
+				}
+			}
+			if found {
+				R.ok(rule, "keyproof.CanProve:residue("+cd.name+")", "true => the residues modulo 8 satisfy "+cd.name+" (row of the table of pairs that must differ)")
+				continue
+			}
+		}
 		mp(P, R, rule, "keyproof.CanProve:residue("+cd.name+")", "true => the residues modulo 8 satisfy "+cd.name, fn, AcceptTrue(0), &MustPass{Match: func(a Atom) bool {
 			a = normAtom(a)
 			bo, ok := a.V.(*ssa.BinOp)
@@ -1166,4 +1181,157 @@ func candidateSizeRule(P *Program, R *Report, rule string, fn *ssa.Function) {
 		}
 	})
 	R.decide(rule, kSPGen+":candidate-size", "q is decoded from ceil((bitsize-1)/8) bytes", okSize, "", P.Pos(fn.Pos()))
+}
+
+// pairTableLoop: fn tests a table of pairs `[...][2]*big.Int{{a, b}, ...}` in a loop `for _, p := range table { if
+// p[0].Cmp(p[1]) == 0 { return false } }` that walks the whole table and returns true only after it: the terms of
+// the rows. ok is false if there is no such loop or anything about it is not exactly of this form.
+func pairTableLoop(P *Program, fn *ssa.Function, be *BigEval) ([][2]Term, bool) {
+	valueTerm := func(v ssa.Value) Term {
+		if c, ok := v.(*ssa.Call); ok {
+			if t, has := be.Ret[c]; has {
+				return t
+			}
+			if isCallTo(c, "big.NewInt") {
+				if k, isK := constInt(callArgs(c)[0]); isK {
+					return tconst(k)
+				}
+			}
+		}
+		return termTop()
+	}
+	// the table: an array local whose rows are filled from two-element array literals
+	var table *ssa.Alloc
+	rows := map[int64][2]ssa.Value{}
+	allInstrs(fn, func(i ssa.Instruction) {
+		st, ok := i.(*ssa.Store)
+		if !ok {
+			return
+		}
+		ia, ok := st.Addr.(*ssa.IndexAddr)
+		if !ok {
+			return
+		}
+		al, ok := ia.X.(*ssa.Alloc)
+		r, isK := constInt(ia.Index)
+		ld, isLd := st.Val.(*ssa.UnOp)
+		if !ok || !isK || !isLd {
+			return
+		}
+		rowAl, isRow := ld.X.(*ssa.Alloc)
+		if !isRow || !strings.HasPrefix(typeStr(rowAl.Type()), "*[2]") {
+			return
+		}
+		var pair [2]ssa.Value
+		for _, rr := range referrersOf(rowAl) {
+			if ea, isEA := rr.(*ssa.IndexAddr); isEA {
+				if c, isC := constInt(ea.Index); isC && (c == 0 || c == 1) {
+					for _, r2 := range referrersOf(ea) {
+						if es, isES := r2.(*ssa.Store); isES && es.Addr == ssa.Value(ea) {
+							pair[c] = es.Val
+						}
+					}
+				}
+			}
+		}
+		if pair[0] == nil || pair[1] == nil {
+			return
+		}
+		if table == nil || table == al {
+			table = al
+			rows[r] = pair
+		}
+	})
+	if table == nil || len(rows) == 0 {
+		return nil, false
+	}
+	// the loop: rangeindex phi from -1, bound = number of rows, body compares p[0] and p[1] of row i and rejects on equal
+	for _, b := range fn.Blocks {
+		l := findLoop(b)
+		if l == nil || len(l.Latch) == 0 {
+			continue
+		}
+		var bound int64 = -1
+		for _, ins := range l.Header.Instrs {
+			if bo, ok := ins.(*ssa.BinOp); ok && bo.Op == token.LSS {
+				if add, isAdd := bo.X.(*ssa.BinOp); isAdd && add.Op == token.ADD {
+					if ph, isPhi := add.X.(*ssa.Phi); isPhi && isInduction(ph) {
+						if k, isK := constInt(bo.Y); isK {
+							bound = k
+						}
+					}
+				}
+			}
+		}
+		if bound != int64(len(rows)) {
+			continue
+		}
+		// the row read in the body comes from the table
+		fromTable := false
+		var cmp *ssa.Call
+		for bb := range l.Body {
+			for _, ins := range bb.Instrs {
+				if ix, ok := ins.(*ssa.Index); ok {
+					if ld, isLd := ix.X.(*ssa.UnOp); isLd && ld.X == ssa.Value(table) && desc(ix.Index) == inductionName(l.Header) {
+						fromTable = true
+					}
+				}
+				if c, ok := ins.(*ssa.Call); ok && bigMethod(c) == "Cmp" {
+					cmp = c
+				}
+			}
+		}
+		if !fromTable || cmp == nil {
+			continue
+		}
+		// p[0].Cmp(p[1]) on the loop's own row variable
+		elemOf := func(v ssa.Value) int64 {
+			ld, ok := v.(*ssa.UnOp)
+			if !ok {
+				return -1
+			}
+			ea, ok := ld.X.(*ssa.IndexAddr)
+			if !ok {
+				return -1
+			}
+			if _, isAl := ea.X.(*ssa.Alloc); !isAl {
+				return -1
+			}
+			k, isK := constInt(ea.Index)
+			if !isK {
+				return -1
+			}
+			return k
+		}
+		e0, e1 := elemOf(callArgs(cmp)[0]), elemOf(callArgs(cmp)[1])
+		if !((e0 == 0 && e1 == 1) || (e0 == 1 && e1 == 0)) {
+			continue
+		}
+		// every iteration that goes on found the pair different, and true is returned only after the loop
+		q := &MustPass{P: P, NoInterproc: true, Match: func(a Atom) bool {
+			a = normAtom(a)
+			bo, ok := a.V.(*ssa.BinOp)
+			if !ok || stripConv(bo.X) != ssa.Value(cmp) {
+				return false
+			}
+			k, isK := constInt(bo.Y)
+			if !isK || k != 0 {
+				return false
+			}
+			rel := tokRel(bo.Op)
+			if a.Want == False {
+				rel = relNeg[rel]
+			}
+			return rel == "!="
+		}}
+		if r := q.ForAllBody(fn, l, AcceptTrue(0), true); !r.Holds {
+			continue
+		}
+		var out [][2]Term
+		for _, pr := range rows {
+			out = append(out, [2]Term{valueTerm(pr[0]), valueTerm(pr[1])})
+		}
+		return out, true
+	}
+	return nil, false
 }
